@@ -2,6 +2,7 @@ import Texel.Model.SnapF
 import Texel.Model.Index
 import Texel.Model.Small
 import Texel.Model.Pipe
+import Texel.Model.Dispatch
 /-! `texeldrv`: the executable model behind a one-line-in, one-line-out protocol (core-only, links as `lean_exe`).
 The Go harness sends the same operation lines to the real code and to this driver and compares the answers. -/
 open Texel
@@ -50,6 +51,47 @@ def snapOp (rest : List String) (mode : Nat) : String :=
   | 0 => render (snapPolygonF g ringsL levels cfg)          -- the functional model (the one the theorems are about)
   | 2 => render (snapPolygon g rings levels cfg)            -- the line-by-line reference transcription
   | _ => if render (snapPolygonF g ringsL levels cfg) == render (snapPolygon g rings levels cfg) then "same" else "differ"
+
+/-- `pipe`/`piperun`: ntargets t₁…tₙ nfeat (k id₁…id_k)*  — the tile matrices every feature is delivered to -/
+def parsePipe (xs : Array Int) : Option (Pipe.Cfg × List Nat) := Id.run do
+  if xs.size < 2 then return none
+  let nt := xs[0]!.toNat
+  let targets := (xs.extract 1 (1 + nt)).toList.map Int.toNat
+  let nf := xs[1 + nt]!.toNat
+  let mut pos := 2 + nt
+  let mut del : Array (List Nat) := #[]
+  for _ in [0 : nf] do
+    let k := xs[pos]!.toNat
+    del := del.push ((xs.extract (pos + 1) (pos + 1 + k)).toList.map Int.toNat)
+    pos := pos + 1 + k
+  return some (⟨targets, fun f => del.getD f []⟩, List.range nf)
+
+def showReceived (c : Pipe.Cfg) (recv : Nat → List Pipe.Item) : String :=
+  " ".intercalate (c.targets.map fun tm => s!"{tm}:[" ++ ",".intercalate ((recv tm).map fun it => toString it.1) ++ "]")
+
+/-- all actions that could be enabled in a state -/
+def pipeActions (c : Pipe.Cfg) (s : Pipe.State) : List Pipe.Action :=
+  let snapSends := match s.snapper with
+    | .pending items => (List.range items.length).map Pipe.Action.snapSend
+    | _ => []
+  let closes := match s.router with
+    | .closing todo => (List.range todo.length).map Pipe.Action.routeClose
+    | _ => []
+  [.readSend, .readClose, .snapClose, .routeSend, .routeStartClose, .routeWait, .routeFinish, .mainReturn]
+    ++ snapSends ++ closes ++ c.targets.map Pipe.Action.writerFinish
+
+/-- run the state machine under a pseudo-random schedule until no step is enabled -/
+def pipeRun (c : Pipe.Cfg) (fs : List Nat) (seed : Nat) : Pipe.State × Nat := Id.run do
+  let mut s := Pipe.init fs
+  let mut rnd := seed
+  let mut steps := 0
+  for _ in [0 : 100000] do
+    let enabled := (pipeActions c s).filterMap fun a => (Pipe.step c s a)
+    if enabled.isEmpty then break
+    rnd := (rnd * 6364136223846793005 + 1442695040888963407) % 18446744073709551616
+    s := enabled.getD ((rnd / 65536) % enabled.length) s
+    steps := steps + 1
+  return (s, steps)
 
 def handle (line : String) : String :=
   match line.trimAscii.toString.splitOn " " with
@@ -110,6 +152,16 @@ def handle (line : String) : String :=
   | "chains" :: rest => snapOp rest 1
   | "snapref" :: rest => snapOp rest 2
   | "snapboth" :: rest => snapOp rest 3
+  | "pipe" :: rest =>
+    match parsePipe (parseInts rest) with
+    | some (c, fs) => showReceived c (fun tm => Pipe.expected c fs tm)
+    | none => "bad-op"
+  | "piperun" :: seed :: rest =>
+    match parsePipe (parseInts rest), seed.toNat? with
+    | some (c, fs), some sd =>
+      let (s, _) := pipeRun c fs sd
+      (if s.returned && c.targets.all (fun tm => s.wDone tm) then "returned " else "stuck ") ++ showReceived c s.received
+    | _, _ => "bad-op"
   | ["page", ps, ns] =>
     match ps.toNat?, ns.toNat? with
     | some p, some n =>
